@@ -254,6 +254,8 @@ static void iv_fd_epoll_deinit(struct iv_state *st)
 	close(st->u.epoll.epoll_fd);
 }
 
+static int iv_active_fd_wr = -1;
+
 static int iv_fd_epoll_create_active_fd(void)
 {
 	int fd;
@@ -281,8 +283,21 @@ static int iv_fd_epoll_create_active_fd(void)
 				 strerror(errno));
 		}
 
+		/*
+		 * Keep the write end open and make the read end
+		 * readable: a hung-up pipe would be reported by epoll
+		 * (as EPOLLHUP) even while it is registered with an
+		 * empty event mask, making every loop that has the
+		 * active fd registered spin.
+		 */
+		ret = write(pfd[1], "", 1);
+		if (ret != 1) {
+			iv_fatal("iv_fd_epoll_create_active_fd: pipe "
+				 "write returned %d", ret);
+		}
+
 		fd = pfd[0];
-		close(pfd[1]);
+		iv_active_fd_wr = pfd[1];
 	}
 
 	return fd;
@@ -333,8 +348,13 @@ static void iv_fd_epoll_event_rx_off(struct iv_state *st)
 	}
 
 	___mutex_lock(&iv_fd_epoll_active_fd_mutex);
-	if (!--iv_active_fd_refcount)
+	if (!--iv_active_fd_refcount) {
 		close(iv_active_fd);
+		if (iv_active_fd_wr != -1) {
+			close(iv_active_fd_wr);
+			iv_active_fd_wr = -1;
+		}
+	}
 	___mutex_unlock(&iv_fd_epoll_active_fd_mutex);
 
 	st->numobjs--;
